@@ -281,6 +281,100 @@ func c01(c *core.Ctx) {
 				}
 			}
 		}
+		// decode helpers (package functions with a message destination parameter)
+		for _, fn := range append(p.LibFuncs("httpgrpc"), p.LibFuncs("inprocgrpc")...) {
+			if fn.Parent() != nil || fn.Signature.Recv() != nil || fn.Signature.Results().Len() != 1 || !core.IsErrorType(fn.Signature.Results().At(0).Type()) {
+				continue
+			}
+			var mpar *ssa.Parameter
+			for _, pp := range fn.Params {
+				if ts := core.TypeStr(pp.Type()); ts == "interface{}" || ts == "any" {
+					mpar = pp
+				}
+			}
+			if mpar == nil {
+				continue
+			}
+			decs := core.CallsIn(fn, func(call *ssa.Call, ci core.CallInfo) bool {
+				if ci.Name != "Unmarshal" && ci.Name != "Copy" {
+					return false
+				}
+				for _, a := range core.Args(&call.Call) {
+					if core.OriginIs(a, func(o ssa.Value) bool { return o == ssa.Value(mpar) }) {
+						return true
+					}
+				}
+				return false
+			})
+			if len(decs) == 0 {
+				continue
+			}
+			key := core.FuncName(fn) + ":success-needs-decode"
+			bad := ""
+			for _, r := range core.Returns(fn) {
+				if core.ClassifyErr(r.Results[0], r) == core.ErrNonNil {
+					continue
+				}
+				if !core.MustPass(core.Entry(fn), r, func(in ssa.Instruction) bool {
+					for _, d := range decs {
+						if in == ssa.Instruction(d) {
+							return true
+						}
+					}
+					return false
+				}) {
+					bad = "a possibly-nil return is reachable without decoding into the destination (e.g. a special case for some sizes): the caller's message keeps its previous content"
+				}
+			}
+			c.Check(bad == "", key, fn.Pos(), "every possibly-nil return passes the decode into the destination", bad)
+		}
+		// a frame consumed from the peek slot is cleared before success is reported
+		for _, nt := range streamTypes(p, "ClientStream", "RecvMsg") {
+			for _, f := range methodFamily(p, nt, "RecvMsg") {
+				mpar := msgParam(f)
+				if mpar == nil {
+					continue
+				}
+				for _, d := range decodeCalls(f, mpar) {
+					// source from the peek slot?
+					src := d.Call.Args[len(d.Call.Args)-1]
+					fromPeek := core.OriginIs(src, func(o ssa.Value) bool {
+						base, fld, ok := core.FieldOf(o)
+						if !ok || fld != "data" {
+							return false
+						}
+						return core.OriginIs(base, func(b ssa.Value) bool { _, f2, ok := core.FieldOf(b); return ok && f2 == "last" })
+					})
+					if !fromPeek {
+						continue
+					}
+					key := typeKey(nt) + "." + f.Name() + ":peeked-frame-cleared"
+					isClear := func(in ssa.Instruction) bool {
+						st, ok := in.(*ssa.Store)
+						if !ok {
+							return false
+						}
+						_, fld, isF := core.FieldOf(st.Addr)
+						return isF && fld == "last"
+					}
+					v := core.Walk(core.After(d), isClear, func(b *ssa.BasicBlock, si int) bool {
+						iff, ok := b.Instrs[len(b.Instrs)-1].(*ssa.If)
+						if !ok {
+							return true
+						}
+						fc := core.CondFact(iff.Cond, si == 0)
+						return !(fc.Op == token.NEQ && core.IsNilConst(fc.Y) && fc.X == ssa.Value(d))
+					})
+					bad := false
+					for _, r := range core.Returns(f) {
+						if v[r] {
+							bad = true
+						}
+					}
+					c.Check(!bad, key, d.Pos(), "after a successful copy from the peeked frame the slot is reassigned before returning", "a message copied from the peeked frame can be reported without clearing the peek slot: the same message is delivered again on the next receive (duplication; later messages never arrive)")
+				}
+			}
+		}
 		c.EndRule()
 	}
 
